@@ -218,6 +218,39 @@ def run(ctx):
                 ctx.counterexample('fnmatch(%r, %r, %s) != %r' % (n, p, corr.flag_names(fl_), want), {'name': n, 'pattern': p})
     finally:
         shutil.rmtree(tmp, ignore_errors=True)
+    # every plane and the edges between them: \\U (and \\u, \\x where the value fits) denote chr(value) - lone surrogates and
+    # the last plane included, as in Python's own string literals; beyond U+10FFFF the escape is refused
+    nplanes = 0
+    values = [0x41, 0x7f, 0x80, 0xff, 0x100, 0x7ff, 0x800, 0xd7ff, 0xd800, 0xdbff, 0xdc00, 0xdce9, 0xdfff, 0xe000, 0xfffd, 0xffff, 0x10000, 0x1f600, 0x2ffff, 0xeffff, 0xfffff,
+              0x100000, 0x10abcd, 0x10fffd, 0x10ffff] + [rng.randrange(0x110000) for _ in range(40 if ctx.quick else 400)]
+    for v in values:
+        forms = ['\\U%08x' % v, '\\U%08X' % v] + (['\\u%04x' % v] if v <= 0xffff else []) + (['\\x%02x' % v] if v <= 0xff else [])
+        for esc in forms:
+            for tmpl in ('p%sq.txt', '%s', '[%s]x', '*%s'):
+                nplanes += 1
+                pat = tmpl % esc
+                name = (tmpl % chr(v)).replace('[', '').replace(']', '').replace('*', 'zz')
+                if chr(v) in '*?[]\\!-|()/' or chr(v) == '\x00' or (tmpl == '%s' and chr(v) == '.'):
+                    continue
+                try:
+                    got = (Fm.fnmatch(name, pat, flags=Fm.RAWCHARS | Fm.DOTMATCH), Gm.globmatch(name, pat, flags=Gm.RAWCHARS | Gm.DOTGLOB), Fm.fnmatch(name + 'x', pat, flags=Fm.RAWCHARS | Fm.DOTMATCH) and not tmpl.startswith('*'),
+                           Fm.translate(pat, flags=Fm.RAWCHARS) == Fm.translate(tmpl % ('\\' + chr(v) if False else chr(v)), flags=0))
+                except Exception as ex_:
+                    got = 'raised %s: %s' % (type(ex_).__name__, ex_)
+                if got != (True, True, False, True):
+                    ctx.counterexample('RAWCHARS: %r against the name %r: (fnmatch, globmatch, fnmatch of a longer name, translate equals translate of the decoded text) = %r; the escape denotes U+%04X' % (pat, name, got, v),
+                                       {'pattern': pat, 'name': name, 'code_point': v, 'flags': 'RAWCHARS'})
+                    break
+    for bad_ in ('\\U00110000', '\\UFFFFFFFF', '\\U0011FFFF', '\\ud80', '\\U0010FFF', '\\U7fffffff'):
+        nplanes += 1
+        try:
+            Fm.fnmatch('a', 'a' + bad_, flags=Fm.RAWCHARS)
+            ctx.counterexample('RAWCHARS accepted %r, which denotes no character' % bad_, {'pattern': 'a' + bad_})
+        except SyntaxError:
+            pass
+        except Exception as ex_:
+            ctx.counterexample('RAWCHARS: %r raised %s instead of SyntaxError' % (bad_, type(ex_).__name__), {'pattern': 'a' + bad_})
+    ctx.counted('RAWCHARS escapes across the planes (surrogates, last plane)', nplanes, nplanes, [{'pattern': 'p\\U0010FFFDq.txt'}, {'pattern': 'a\\udce9.t?t'}])
     ctx.counted('RAWCHARS vs hand-decoded pattern', evals, len(nontriv), [{'pattern': 'a\\x7cb'}, {'pattern': cand[len(cand) // 2]}])
     return ctx.finish(RULE)
 
